@@ -351,6 +351,13 @@ def run_pair(res, cfg, run, exe, tier, seed, replay_file=None):
     if not (len(c) == len(i) == len(m)):
         return None, [], "line count mismatch cases=%d impl=%d model=%d" % (len(c), len(i), len(m))
     mism = [(c[k], i[k], m[k]) for k in range(len(c)) if i[k] != m[k]]
+    # property predicate on the implementation's own behaviour, also where the model agrees
+    iv = getattr(cfg, "impl_violation", None)
+    if iv:
+        seen = set(x[0] for x in mism)
+        for k in range(len(c)):
+            if c[k] not in seen and iv(run["name"], c[k], i[k]):
+                mism.append((c[k], i[k], m[k]))
     stats = json.load(open(os.path.join(outdir, "stats.json")))
     return stats, mism, None
 
